@@ -456,6 +456,13 @@ func (p *pipeline) run(seqShapes []shape, mode string) (perOutput [][]decoded, e
 		}
 		if mode == "each" || mode == "two" {
 			sinks[k].Flush()
+		} else if strings.HasPrefix(mode, "mask") {
+			// mask<bits>: a flush pause after record i iff bit i is set (every placement of flushes is enumerated)
+			var bitsv int
+			fmt.Sscanf(mode, "mask%d", &bitsv)
+			if bitsv&(1<<uint(i)) != 0 {
+				sinks[k].Flush()
+			}
 		}
 	}
 	for _, s := range sinks {
@@ -762,6 +769,49 @@ func enumerate(ctx *seq.Ctx) {
 					if i < 0 {
 						break
 					}
+				}
+			}
+		}
+	}
+	// all sequences of length <= 4 over {short, two pooled-size shapes of one size class, a larger pooled one} x EVERY
+	// placement of flush pauses between the records (batch boundaries decide which records are alive together)
+	var reduced []shape
+	for _, sh := range shapes {
+		switch sh.name {
+		case "short", "pooled1500", "pooled1900trunc", "overflow":
+			reduced = append(reduced, sh)
+		}
+	}
+	second := reduced[1]
+	second.name, second.host, second.msg = "pooled1500b", "hostB", "BIG "+filler(1500, "omega")
+	reduced = append(reduced, second)
+	for _, os_ := range outputSets[:2] {
+		for l := 2; l <= 4; l++ {
+			ctx.Group(fmt.Sprintf("flushmask/outputs=%s/len%d", os_.name, l))
+			idx := make([]int, l)
+			for {
+				for mask := 0; mask < 1<<uint(l-1); mask++ {
+					seqShapes := make([]shape, l)
+					names := make([]string, l)
+					for i, x := range idx {
+						seqShapes[i] = reduced[x]
+						names[i] = reduced[x].name
+					}
+					os2, mode2 := os_, fmt.Sprintf("mask%d", mask)
+					ctx.Case(fmt.Sprintf("flushmask/%s/%s/%s", os_.name, mode2, strings.Join(names, ",")), true, strings.Join(names, ","),
+						func() (string, string) { return checkSequence(os2, seqShapes, mode2) })
+				}
+				i := l - 1
+				for i >= 0 {
+					idx[i]++
+					if idx[i] < len(reduced) {
+						break
+					}
+					idx[i] = 0
+					i--
+				}
+				if i < 0 {
+					break
 				}
 			}
 		}
